@@ -675,6 +675,26 @@ func GenTypes(t *rapid.T, o *Opts) *Spec {
 		g.newDecl(root, root.Files[0], outer, &tinfo{cat: "struct"})
 		o.class("feature:promoted_field_same_go_name_distinct_key")
 	}
+	if o.Times && rapid.IntRange(0, 2).Draw(t, "timeAndDate") == 0 {
+		// directed: a plain time.Time, a date type and a named time in one struct (the targets declare `Time` and `Date` once each)
+		var date *tinfo
+		for _, x := range g.types {
+			if x.pkg == root && x.cat == "date" {
+				date = x
+			}
+		}
+		if date == nil {
+			name := g.freshName(root, "tadDateName", true) + "Date"
+			g.used(root)[name] = true
+			date = g.newDecl(root, root.Files[rapid.IntRange(0, 1).Draw(t, "tadDateFile")], &Decl{Kind: KNamed, Name: name, Type: Std("time", "Time"), TimeLike: true}, &tinfo{cat: "date"})
+		}
+		fs := []*Field{{Name: "Zat", Type: Std("time", "Time")}, {Name: "Zday", Type: g.refTo(root, date)}, {Name: "Zlog", Type: Slice(Std("time", "Time"))}}
+		if rapid.Bool().Draw(t, "tadOrder") {
+			fs[0], fs[1] = fs[1], fs[0]
+		}
+		g.newDecl(root, root.Files[0], &Decl{Kind: KStruct, Name: g.freshName(root, "tadHolder", true), Fields: fs}, &tinfo{cat: "struct"})
+		o.class("feature:time_and_date_in_one_struct")
+	}
 	if o.LongArrays && rapid.Bool().Draw(t, "longArray") {
 		// a fixed array longer than the slices the generators build (3..7 elements), whose elements have no
 		// acceptable zero value: a string enum, or a union
